@@ -237,6 +237,12 @@ func (r *Report) Finish(verifDir string, anchors *Anchors, allow []Allow, ff *Fi
 	for k, v := range r.Extra {
 		cov[k] = v
 	}
+	if r.Assumptions == nil {
+		r.Assumptions = []string{"the analysed tree type-checks with the build configuration(s) listed under coverage.build_configurations", "trusted base as listed in coverage.trusted_base"}
+	}
+	if r.Notes == nil {
+		r.Notes = []string{}
+	}
 	ev := map[string]any{
 		"property_id": r.Property,
 		"tier":        r.Tier,
